@@ -42,7 +42,7 @@ Print Assumptions C01_ids_dense_run.
 
 (* a continued run resumes numbering immediately after the highest id recorded in the file *)
 Theorem C01_resume_after_highest :
-  forall e s c T, save s = Ok c -> last_id (load e c) T = last_id s T.
+  forall e s c s0 T, save s = Ok c -> load e c = Ok s0 -> last_id s0 T = last_id s T.
 Proof. exact resume_after_highest. Qed.
 Print Assumptions C01_resume_after_highest.
 
@@ -62,7 +62,7 @@ Definition ex_recipe : recipe :=
     [SObj (Tpl "A" None (Some (FLitInt 2)) false
              [("f0", FRef "bb"); ("f1", FNested (Tpl "C" None (Some (FLitInt 0)) false [] []))]
              [SObj (Tpl "__H" None None false [] [])]);
-     SObj (Tpl "B" (Some "bb") None false [("f0", FFormula [PExpr (EAttr (EVar "A") "id")])] [])].
+     SObj (Tpl "B" (Some "bb") None false [("f0", FFormula [PExpr (EAttr (EVar "A") "id")])] [])] [].
 
 Example C01_ex_history :
   match run_history ex_recipe [1; 2]%nat None with
